@@ -12,8 +12,8 @@ for _a in ("update_cache", "_update_in_memory_cache", "_read_cache", "_get_state
     spy(P.Project, _a, "signac.project.Project." + _a)
 CODE = ["signac.project.Project.update_cache / _update_in_memory_cache / _read_cache / _remove_persistent_cache_file", "signac.project.Project._get_statepoint / _register / open_job(id=)",
         "signac.project.Project._find_job_ids / _build_index / __len__ / _job_dirs", "signac.job.Job.__init__ (by id, cache lookup) / remove / statepoint setter"]
-BOUNDS = {"universe": "4 jobs {a: 0..3}", "history": "length <= 3 (quick) / 4 (thorough) over {init i, remove i, re-key i -> (i+1)%4, update_cache, restart session, delete cache file}",
-          "initial state": "any subset of the universe present; cache file absent / exact / stale (one extra id, one missing id, or both)",
+BOUNDS = {"universe": "4 jobs {a: 0..3}", "history": "length <= 2 (quick) / 3 (thorough; length 4 from one stale-cache state) over {init i, remove i, re-key i -> (i+1)%4, update_cache, restart session, delete cache file}",
+          "initial state": "5 representative subsets of the universe present (none, one, two non-adjacent, two adjacent, all); cache file absent / exact / stale (one extra id, one missing id, or both)",
           "observations": "len, find_jobs() ids, find_jobs({a: q}) for every q, open_job(id=..).statepoint() for every existing id; each in the running session, in a fresh session, and in a fresh session with the cache file deleted"}
 OUTSIDE = ["corrupted workspaces (C09)", "universes larger than 4 jobs", "cache files written by other signac versions"]
 STUBS = ["MemFS for os/open/gzip/uuid; ThreadPool -> synchronous map; time.time -> constant (validated against tmpfs on every run)"]
@@ -164,8 +164,8 @@ def _dec(x):
 def h_hist(init_mask: int, cache_state: int, o0: int, o1: int, o2: int, o3: int, n: int):
     assert 0 <= init_mask < 16 and 0 <= cache_state <= 4 and 0 <= o0 < 15 and 0 <= o1 < 15 and 0 <= o2 < 15 and 0 <= o3 < 15 and 1 <= n <= 4 and part_ok(o0)
     assert (n >= 2 or o1 == 0) and (n >= 3 or o2 == 0) and (n >= 4 or o3 == 0)
-    assert n <= (2 if tier() == "quick" else 3) or (tier() != "quick" and init_mask in (0, 5) and cache_state in (0, 4))
-    assert tier() != "quick" or init_mask in (0, 1, 5, 6, 15)
+    assert n <= (2 if tier() == "quick" else 3) or (tier() != "quick" and init_mask == 5 and cache_state == 4)
+    assert init_mask in (0, 1, 5, 6, 15)      # representative initial subsets: none, one, two non-adjacent, two adjacent, all
     fresh_path()
     init_mask, cache_state, n = ci(init_mask, 0, 15), ci(cache_state, 0, 4), ci(n, 1, 4)
     ops = [_dec(ci(o, 0, 14)) for o in (o0, o1, o2, o3)][:n]
